@@ -122,7 +122,9 @@ class RuleRun:
         self.observations.append(text)
 
     def violation(self, node_or_construct, message, g=None, path=None,
-                  instance=None):
+                  instance=None, at_root=False):
+        if at_root and not isinstance(node_or_construct, tuple):
+            node_or_construct = root_construct(node_or_construct)
         if isinstance(node_or_construct, tuple):
             module, function, stmt = node_or_construct[:3]
             lineno = node_or_construct[3] if len(node_or_construct) > 3 \
@@ -141,6 +143,36 @@ class RuleRun:
                 return old
         self.findings.append(f)
         return f
+
+
+def root_construct(node):
+    """Attribute a node inside an inlined callee to the statement of the
+    analysed (root) function that contains the outermost call."""
+    fr = node.frame
+    if fr.parent is None:
+        return node
+    while fr.parent is not None and fr.parent.parent is not None:
+        fr = fr.parent
+    root = fr.parent
+    s = fr.call_stmt
+    text = ast_text(s) if s is not None else ast.unparse(fr.call)
+    return (root.func.module.relpath, root.func.qualname, text,
+            getattr(s, 'lineno', getattr(fr.call, 'lineno', None)))
+
+
+def ast_text(a):
+    try:
+        if isinstance(a, ast.With):
+            return 'with ' + ', '.join(ast.unparse(i.context_expr)
+                                       for i in a.items)
+        if isinstance(a, ast.For):
+            return 'for %s in %s' % (ast.unparse(a.target),
+                                     ast.unparse(a.iter))
+        if isinstance(a, (ast.While, ast.If)):
+            return ast.unparse(a.test)
+        return ' '.join(ast.unparse(a).split())
+    except Exception:
+        return '<?>'
 
 
 def stmt_text(node):
@@ -214,7 +246,7 @@ def run_rules(ctx, rule_ids):
 
 
 def check_property(pid, tier='quick', seed=0, out=sys.stdout, src=SRC,
-                   write_evidence=True, rule_filter=None):
+                   write_evidence=True, rule_filter=None, write_replays=True):
     """Run every rule of property `pid`.  Returns the exit status."""
     from . import rules  # noqa: F401  (registers the rules)
     t0 = time.time()
@@ -257,7 +289,7 @@ def check_property(pid, tier='quick', seed=0, out=sys.stdout, src=SRC,
                          f.stmt[:80], k.get('what', f.message)), file=out)
                 continue
             n_viol += 1
-            rp = write_replay(pid, f, tier)
+            rp = write_replay(pid, f, tier) if write_replays else '-'
             print('--- %s violated: %s' % (f.rule, RULES[f.rule].title),
                   file=out)
             print('    at %s:%s in %s' % (f.module, f.lineno, f.function),
